@@ -1,6 +1,6 @@
 """Which rules exist, which properties are claimed, their floors and evidence texts."""
 
-RULE_MODULES = ['descent', 'null', 'live', 'gate', 'alloc', 'immobile', 'reset', 'pool', 'stale']
+RULE_MODULES = ['descent', 'null', 'live', 'gate', 'alloc', 'immobile', 'reset', 'pool', 'stale', 'layer']
 
 # rules whose instance set legitimately differs between debug and release-like MIR
 CONFIG_DEPENDENT_RULES = {'PANICSITE'}
@@ -167,3 +167,18 @@ may have freed it [STALE]. Not decided: the storage bound itself (a stated conse
 most the current size).""",
      ["C02 (a removal's unlinking leaves the slot unreachable from the root)"],
      {'POOL': 24, 'PROVENANCE': 150, 'STALE': 20})
+
+prop('C18', """
+Static analysis (effect layering over the call graph and CFG). Decided clause: user code (key comparison, comparator
+closure, key accessor, expiration accessor - also when entered through std's binary_search_by*, retain, or a blanket
+impl for &K) never runs inside a structural update. (A) Trees: functions are partitioned structurally into complete
+transactions (removal, linking inserts, clear), partial writers (any other function with a direct arena write or pool
+call) and searchers; L1 partial writers are called only from writers/transactions; L2 no writer or transaction reaches
+user code after its first arena write on any path, transitively; L3 functions that run user code write the arena only
+through complete transactions. (B) Lists and segment tree: no user code between two visible mutations made by one
+function (two sites or one site in a loop); closure-taking mutators other than retain are rejected; removals of
+expired entries (purge, swap_remove on the drop side) are invisible. (C) The cache min_exp is only lowered with
+min(old, x) before code that may unwind, or set after the complete retain [LAYER, GATE]. Not decided: that a complete
+transaction restores validity (C02).""",
+     ["C02 (complete transactions leave a valid tree)", "Vec::retain is panic-safe (std documentation)"],
+     {'LAYER': 100})
